@@ -52,7 +52,8 @@ def run(tier, seed):
         quick_num=6 if len(THEMES) > 1 else 24, thorough_num=250,
         assumptions=kc.COMMON_ASSUMPTIONS, rule=RULE, needed_events=NEEDED,
         directed=(DIRECTED + kc.MULTI_DIRECTED
-                  + kc.clause("aspa-rtr-shrink-regain", "roa-replaced")
+                  + kc.clause("aspa-rtr-shrink-regain", "roa-replaced",
+                              "roll-new-key-covers-more")
                   + kc.HOLD_DIRECTED[:1]),
         theme_nums={"multi": (4, 60), "mix": (4, 60)},
         mc_cfgs=(kc.QUICK_MC + ["MC_Krill_q_multi.cfg"] if tier == "quick"
